@@ -191,7 +191,7 @@ func (d *driver) writeEvidence(prop, tier string, master uint64, agg *WorkerSumm
 			"runs_by_leg":               agg.LegRuns,
 			"inconclusive_runs":         agg.Inconclusive,
 			"known_findings_reproduced": kn,
-			"spsa_build":                SpsaBuild,
+			"spsa_build_workers":        d.spsaWorkers,
 			"determinism_precheck":      "first 5 seeds run twice in separate processes (GOMAXPROCS 1 and 16), history hashes equal",
 			"exhaustive":                false,
 		},
